@@ -14,6 +14,8 @@ class PointBehavior(simnet.Behavior):
     def __init__(self, sched, peer_factory):
         super().__init__(peer_factory=peer_factory)
         self.sched = sched
+        self.faulty = set()
+        self.fired = set()
 
     def connect(self, net, rec):
         self.sched.point(("net", "connect"))
@@ -25,6 +27,16 @@ class PointBehavior(simnet.Behavior):
 
     def read(self, net, sock, rec):
         self.sched.point(("net", "read"))
+        # requests marked faulty fail at their first read (a genuine network failure: that request is expected to fail, nobody else)
+        import re
+
+        import httpcore
+        data = b"".join(b for _, b in sock.written[-6:])
+        toks = re.findall(rb"/(c\d+x\d+) HTTP/1\.1", data)
+        if toks and toks[-1].decode() in self.faulty and toks[-1] not in self.fired:
+            self.fired.add(toks[-1])
+            rec["fault"] = "ReadError"
+            raise httpcore.ReadError("injected")
         return super().read(net, sock, rec)
 
     def write(self, net, sock, rec):
@@ -77,7 +89,7 @@ def gen_cfg(rng):
             "origins": rng.choice([1, 2, 2, 3]), "requests_per_thread": rng.choice([1, 2, 2, 3]), "http2": rng.random() < 0.2,
             "switch_prob": rng.choice([0.05, 0.2, 0.5]), "modes": rng.choice([["read"], ["read", "read", "partial"]]),
             "policies": rng.choice([["default_policy"], ["default_policy", "closing_policy", "long_policy"]]),
-            "trace_lines": True, "hot": rng.random() < 0.4}
+            "trace_lines": True, "hot": rng.random() < 0.4, "p_faulty": rng.choice([0.0, 0.0, 0.25])}
 
 
 def run_one(cfg, seed):
@@ -114,6 +126,10 @@ def run_one(cfg, seed):
     for t in range(cfg["threads"]):
         plans[f"T{t}"] = [(f"c{t}x{j}", rng.randrange(cfg["origins"]), rng.choice(cfg["modes"]), rng.choice([None, None, b"B"]))
                           for j in range(cfg["requests_per_thread"])]
+    frng = random.Random(seed ^ 0x5EED)       # a stream of its own: stored replays keep their schedules
+    faulty = {tok for plan in plans.values() for (tok, _o, _m, _b) in plan if frng.random() < cfg.get("p_faulty", 0.0)} \
+        if not cfg["http2"] else set()
+    net.behavior.faulty = faulty
     with threadsched.patched_sync(sched):
         pool = httpcore.ConnectionPool(**kw)
         maxc = cfg["max_connections"]
@@ -176,6 +192,8 @@ def run_one(cfg, seed):
         elif kind == "ok":
             for r, (tok, origin, mode, body) in zip(val, plans[name]):
                 want = b"echo:/" + tok.encode() + b":" + (body or b"")
+                if r["outcome"] != "ok" and tok in faulty and r["outcome"] == "error:ReadError":
+                    continue            # the injected failure of this very request
                 if r["outcome"] != "ok":
                     cls = r["outcome"].split(":")[1]
                     documented = cls in ("ConnectError", "ReadError", "WriteError", "RemoteProtocolError", "LocalProtocolError", "PoolTimeout",
